@@ -46,9 +46,9 @@ type rwPair struct {
 
 func rlpxMessages() []sentMsg {
 	return []sentMsg{
-		{3, enc(getBlockHashesData{unknownHash, 512})},               // 1 + 43 bytes: padded
-		{16, nil},                                                    // empty payload
-		{1000, bytes.Repeat([]byte{0xC0}, 13)},                       // 3-byte code + 13 = 16: no padding
+		{3, enc(getBlockHashesData{unknownHash, 512})}, // 1 + 43 bytes: padded
+		{16, nil},                              // empty payload
+		{1000, bytes.Repeat([]byte{0xC0}, 13)}, // 3-byte code + 13 = 16: no padding
 	}
 }
 
@@ -332,9 +332,17 @@ func partB(c *xs.Ctx, r *xs.Result, only string) {
 	}
 }
 
+// shortErr normalises an error text into an outcome class (digits dropped so that "unknown type: 251" and
+// "unknown type: 5" are one class).
 func shortErr(s string) string {
 	if len(s) > 28 {
 		s = s[:28]
 	}
-	return s
+	b := []byte(s)
+	for i, c := range b {
+		if c >= '0' && c <= '9' {
+			b[i] = '#'
+		}
+	}
+	return string(b)
 }
